@@ -1059,7 +1059,7 @@ def corrupt(t, how):
 CONTROL_KINDS = ("unsorted", "lost", "comment", "shape", "indent", "refuse", "doc", "open")
 
 
-def validate(ctx, traces, with_controls=True, known=None):
+def validate(ctx, traces, with_controls=True, known=None, nrec=None):
     known = KNOWN_IDS if known is None else known
     tl = [tlc_event_fill(t) for t in traces]
     controls = []
@@ -1083,10 +1083,13 @@ def validate(ctx, traces, with_controls=True, known=None):
     validate.notes = notes
     info = {}
     if rejected:
-        sub = [tl[i - 1] for i in rejected[:20]]
+        nrec = len(tl) if nrec is None else nrec
+        pick = [i for i in rejected if i > nrec][:3]           # replayed TLC cases first (small), then recorded executions
+        pick += [i for i in rejected if i <= nrec][:5 - len(pick)]
+        sub = [tl[i - 1] for i in pick]
         env["TRACE_DIAG"] = "1"
         _, prog, _ = core.validate_traces(ctx, "TraceListSort", "TraceListSort.cfg", sub, extra_env=env)
-        for j, i in enumerate(rejected[:20]):
+        for j, i in enumerate(pick):
             info[i] = prog.get(j + 1, 0)
     return rejected, info, made
 
@@ -1174,7 +1177,7 @@ def run(ctx):
     quick = ctx.tier == "quick"
     rng = ctx.rng
     ctx.assumptions += [
-        "layout tokens of C11 (word, comma, blanks, newline, continuation blank, comment line) plus numbered comment lines; words with an even number end in '>'; bounds quick: <=3 words/7 tokens/1 comment line x 1 call (all) and x 2 calls (1/150 of the layouts); thorough: <=3 words/8 tokens/2 comment lines x every renaming x 7 key/reverse pairs, 2 and 3 calls on smaller layouts, comma layouts <=10 tokens for the hidden separator",
+        "layout tokens of C11 (word, comma, blanks, newline, continuation blank, comment line) plus numbered comment lines; words with an even number end in '>'; design bounds quick: <=3 words/7 tokens/1 comment line x 1 call; thorough: <=3 words/8 tokens/2 comment lines x every renaming x 7 key/reverse pairs, 2 calls on <=6 tokens, 3 calls on <=2 words/5 tokens, comma and uploaders layouts <=10 tokens for the hidden separator; replayed cases: slices of these chosen by the seed",
         "text order = order of the word numbers: the concretization hands out prefix-free stems in sorted order; values that share their first word are identical (KeyDomain), otherwise the order is not judged",
         "order among items with equal keys, comment attachment after a remove, ValueReferences across a sort, empty lists, editing an uploaders list with an item without '>', the value of a last uploaders item that ends in a non-separating comma: unspecified (executed, document level only)",
         "the written text is lexed back into layout tokens by the inverse of the concretization (trusted); which tokens form values / which comment lines belong to a value is decided by TLC (reference reader)",
@@ -1344,7 +1347,7 @@ def run(ctx):
         # ---- the arbiter: TLC validates the recorded executions and the replays that differ from the prediction
         traces = [e.trace() for e in execs] + [a[0].trace() for a in arb]
         nrec = len(execs)
-        rejected, info, made = validate(ctx, traces)
+        rejected, info, made = validate(ctx, traces, nrec=nrec)
         ctx.traces += len(traces)
         ctx.evaluations += nrec
         for i in range(nrec):
@@ -1352,7 +1355,7 @@ def run(ctx):
         ctx.extra["controls"] = made
         for tid, fid in sorted(validate.notes.items()):      # accepted only because of an open finding
             hit(fid)
-        for i in rejected[:5]:
+        for i in sorted(info, key=lambda i: (i <= nrec, i)):
             t = traces[i - 1]
             at = info.get(i, 0)
             ev = t["events"][at] if at < len(t["events"]) else None
